@@ -370,7 +370,7 @@ func slotPrecedence(e Expression) int     { return 0 }
 //@   loop 1 invariant [frame] cwInv(cw) && J(cw) && NoFusion(cw) && cw.IndentLevel == atEntry(cw.IndentLevel)
 //@   loop 1 before [syntax] traceSeq()
 //@   loop 1 each [syntax] traceSeq(evNode(p.Statements[iter()]))
-//@   ensures [syntax] traceSeq()
+//@   ensures [syntax] traceSeq(evLC(p.EOF.LeadingComments))
 
 //@ func (ls *LetStatement) WriteTo(cw)
 //@   props C01 C03 C06 C08 C15 C14 C11
